@@ -5,7 +5,9 @@ open Model
 open Common
 
 let upper z = let c = int_of_z z in if c >= 97 && c <= 122 then z_of_int (c - 32) else z
-let ans mode l = if mode = "e" then l else (z_of_int 60 :: List.map upper l) @ [z_of_int 62]
+let ans mode l =
+  if mode = "e" then l
+  else (z_of_int 60 :: List.map upper l) @ (if mode = "c" then [z_of_int 62; z_of_int 13] else [z_of_int 62])
 
 let () =
   iter_lines (fun line ->
